@@ -205,6 +205,49 @@ def expectTok (def_ : List Char) (tok : Char) : Option (List Char) :=
   | some (t, r) => if t == [tok] then some r else none
   | none => none
 
+/-- `doParseSlice` after the element parser is known: `set<…>` / `list<…>` -/
+def parseSliceBody (inner : List Char → Option (Ty × List Char)) (def_ : List Char) : Option (Ty × List Char) :=
+  match readToken def_ false with
+  | none => none
+  | some (tok, r) =>
+    let isSet? : Option Bool :=
+      if tok == "set".toList then some true else if tok == "list".toList then some false else none
+    match isSet? with
+    | none => none
+    | some isSet =>
+      match expectTok r '<' with
+      | none => none
+      | some r1 =>
+        match inner r1 with
+        | none => none
+        | some (et, r2) =>
+          match expectTok r2 '>' with
+          | none => none
+          | some r3 => if isValueType et then some (.list isSet et, r3) else none
+
+/-- the `map<K:V>` part of `doParseType` after key and value parsers are known -/
+def parseMapBody (hasDef : Bool) (pk pv : List Char → Option (Ty × List Char)) (r0 : List Char) :
+    Option (Ty × List Char) :=
+  let r1? := if hasDef then expectTok r0 '<' else some r0
+  match r1? with
+  | none => none
+  | some r1 =>
+    match pk r1 with
+    | none => none
+    | some (kt, r2) =>
+      if !isKeyType kt then none else
+      let r3? := if hasDef then expectTok r2 ':' else some r2
+      match r3? with
+      | none => none
+      | some r3 =>
+        match pv r3 with
+        | none => none
+        | some (vt, r4) =>
+          let r5? := if hasDef then expectTok r4 '>' else some r4
+          match r5? with
+          | none => none
+          | some r5 => if isValueType vt then some (.map kt vt, r5) else none
+
 /-- `doParseType(vt, def, &i, allowPtrs)`; `hasDef` is `def != ""`. Returns the type and the
     unread rest of the annotation. `none` = any error. -/
 def doParseType : GoTy → Bool → List Char → Bool → Option (Ty × List Char)
@@ -241,49 +284,14 @@ def doParseType : GoTy → Bool → List Char → Bool → Option (Ty × List Ch
         | some (r, _) => some (.base .binary, r)
       else some (.base .binary, def_)
     else if !hasDef then none
-    else
-      match readToken def_ false with
-      | none => none
-      | some (tok, r) =>
-        let isSet? : Option Bool :=
-          if tok == "set".toList then some true else if tok == "list".toList then some false else none
-        match isSet? with
-        | none => none
-        | some isSet =>
-          match expectTok r '<' with
-          | none => none
-          | some r1 =>
-            match doParseType e hasDef r1 true with
-            | none => none
-            | some (et, r2) =>
-              match expectTok r2 '>' with
-              | none => none
-              | some r3 => if isValueType et then some (.list isSet et, r3) else none
+    else parseSliceBody (fun r1 => doParseType e hasDef r1 true) def_
   | .map k v, hasDef, def_, _ =>
     let afterKw : Option (List Char) :=
       if hasDef then (matchAnnot (.map k v) .map def_).map (·.1) else some def_
     match afterKw with
     | none => none
     | some r0 =>
-      let r1? := if hasDef then expectTok r0 '<' else some r0
-      match r1? with
-      | none => none
-      | some r1 =>
-        match doParseType k hasDef r1 true with
-        | none => none
-        | some (kt, r2) =>
-          if !isKeyType kt then none else
-          let r3? := if hasDef then expectTok r2 ':' else some r2
-          match r3? with
-          | none => none
-          | some r3 =>
-            match doParseType v hasDef r3 true with
-            | none => none
-            | some (vt, r4) =>
-              let r5? := if hasDef then expectTok r4 '>' else some r4
-              match r5? with
-              | none => none
-              | some r5 => if isValueType vt then some (.map kt vt, r5) else none
+      parseMapBody hasDef (fun r1 => doParseType k hasDef r1 true) (fun r3 => doParseType v hasDef r3 true) r0
 
 def parseType (vt : GoTy) (def_ : List Char) : Option Ty :=
   (doParseType vt (!def_.isEmpty) def_ true).map (·.1)
@@ -306,6 +314,31 @@ def parseOpts (t : Ty) : List (List Char) → Bool → Option Bool
       if !t.isStringWire then none else if acc then none else parseOpts t r true
     else none
 
+/-- requiredness word assumed when the tag stops after the id -/
+def dfltWord : List Char := "default".toList
+
+/-- "only optional fields or structs can be pointers" -/
+def ptrRuleOk (ty : Ty) (req : Req) : Bool :=
+  match ty with
+  | .ptr (.strct _) => true
+  | .ptr _ => req == .optional
+  | _ => true
+
+def zeroOfKindTy : Ty → Val
+  | .base .string => .str []
+  | .base .binary => .bin true []
+  | .base _ => .sc 0
+  | .ptr _ => .nilp
+  | .list _ _ => .lst true []
+  | .map _ _ => .mp true []
+  | .strct _ => .st [] []
+
+def mkField (hasInit : Bool) (gf : GoField) (id : Nat) (req : Req) (ty : Ty) (nocopy : Bool) : Field :=
+  { id := id, req := req, ty := ty, nocopy := nocopy, name := gf.name,
+    dflt := if hasInit then some (gf.dflt.getD (zeroOfKindTy ty)) else none,
+    assigned := hasInit && gf.dflt.isSome }
+
+/-- one tagged field: id, requiredness (default when omitted), type annotation, options -/
 def resolveField (hasInit : Bool) (gf : GoField) (ft : List (List Char)) : Option Field :=
   match ft with
   | [] => none
@@ -313,38 +346,16 @@ def resolveField (hasInit : Bool) (gf : GoField) (ft : List (List Char)) : Optio
     match parseU16 idS with
     | none => none
     | some id =>
-      let (reqS, r1) := match r with
-        | [] => ("default".toList, [])
-        | x :: xs => (x, xs)
-      match parseReq reqS with
+      match parseReq (r.headD dfltWord) with
       | none => none
       | some req =>
-        let (tyS, r2) := match r1 with
-          | [] => ([], [])
-          | x :: xs => (x, xs)
-        match parseType gf.ty tyS with
+        match parseType gf.ty (r.tail.headD []) with
         | none => none
         | some ty =>
-          let ptrOk := match ty with
-            | .ptr (.strct _) => true
-            | .ptr _ => req == .optional
-            | _ => true
-          if !ptrOk then none else
-          match parseOpts ty r2 false with
+          if !ptrRuleOk ty req then none else
+          match parseOpts ty r.tail.tail false with
           | none => none
-          | some nocopy =>
-            some { id := id, req := req, ty := ty, nocopy := nocopy, name := gf.name,
-                   dflt := if hasInit then some (gf.dflt.getD (zeroOfKindTy ty)) else none,
-                   assigned := hasInit && gf.dflt.isSome }
-where
-  zeroOfKindTy : Ty → Val
-    | .base .string => .str []
-    | .base .binary => .bin true []
-    | .base _ => .sc 0
-    | .ptr _ => .nilp
-    | .list _ _ => .lst true []
-    | .map _ _ => .mp true []
-    | .strct _ => .st [] []
+          | some nocopy => some (mkField hasInit gf id req ty nocopy)
 
 def resolveFieldsAux (hasInit : Bool) : List GoField → List Nat → Option (List Field)
   | [], _ => some []
